@@ -2,7 +2,7 @@
      H <hex> | F <testdata name> <off:val,...|-> | SIZES
    first token of argv (optional): "unfixed" runs the model of the code before the fix commits.
    output:  R=..;SI=..;TL=..;...;EXP=..;led=<largest ledger entry>   or "?" (case not predicted) *)
-let tags = [| "R"; "SI"; "TL"; "ML"; "UM"; "MEM"; "M64"; "MI"; "TI"; "TN"; "HD"; "EX"; "EXP"; "EXC"; "TLP"; "MS"; "LC"; "LS"; "LR"; "LE"; "LL"; "MA"; "CP"; "SIS"; "AS"; "BP"; "MB"; "SE"; "MC"; "RM"; "RI"; "CA"; "TE"; "AM"; "AL"; "AI"; "A6"; "TG"; "TS"; "TIG" |]
+let tags = [| "R"; "SI"; "TL"; "ML"; "UM"; "MEM"; "M64"; "MI"; "TI"; "TN"; "HD"; "EX"; "EXP"; "EXC"; "TLP"; "MS"; "LC"; "LS"; "LR"; "LE"; "LL"; "MA"; "CP"; "SIS"; "AS"; "BP"; "MB"; "SE"; "MC"; "RM"; "RI"; "CA"; "TE"; "AM"; "AL"; "AI"; "A6"; "TG"; "TS"; "TIG"; "TSW" |]
 let kinds = [| "none"; "x86"; "amd64"; "ppc"; "ppc64"; "sparc"; "arm"; "arm64"; "arm64old"; "mips" |]
 let err_names = [| "MissingHeader"; "HeaderMismatch"; "VersionMismatch"; "MissingDirectory"; "StreamReadFailure";
                    "StreamSizeMismatch"; "StreamNotFound"; "ModuleReadFailure"; "MemoryReadFailure"; "DataError";
@@ -53,7 +53,7 @@ let () =
                | FOk vs -> String.concat ":" ("ok" :: List.map string_of_z vs)
                | FErr e -> "err:" ^ err_names.(int_of_z (err_code e))
                | FPan t -> "!P(" ^ string_of_z t ^ ")"
-               | FNoFuel -> "!NOFUEL")) (let bs = bytes_of_string data in o_fields o @ run_queries Debug bs @ run_lookups Debug bs @ run_stacks Debug bs) in
+               | FNoFuel -> "!NOFUEL")) (let bs = bytes_of_string data in o_fields o @ run_queries Debug bs @ run_lookups Debug bs @ run_stacks Debug bs @ run_prints Debug bs) in
             let led = List.fold_left (fun a x -> let x = z_to_zt x in if ZA.compare x a > 0 then x else a) ZA.zero (o_ledger o) in
             print_endline (String.concat ";" fs ^ ";led=" ^ ZA.to_string led)
           end
